@@ -308,6 +308,16 @@ func c14Run(c *Ctx, i int, r *gen.R) {
 	}
 	n := r.Range(5, 30)
 	for k := 0; k < n; k++ {
+		if r.Chance(1, 12) {
+			// looking at the table between renders (a log line, a debugger) is not a change either
+			cs.Renders = append(cs.Renders, "the table, its rows and cells are formatted with %v and %#v")
+			_ = fmt.Sprintf("%v %#v", t, t)
+			for _, row := range t.AllRows() {
+				_ = fmt.Sprintf("%v %#v %v", row, row, row.Cells())
+			}
+			c.Rec.Count("observations_through_fmt_between_renders", 1)
+			continue
+		}
 		if r.Chance(1, 6) {
 			f := faulty[r.Intn(len(faulty))]
 			w := &scriptWriter{k: r.Range(1, 12), mode: r.Intn(c15NModes)}
